@@ -51,6 +51,7 @@ def restart(
     first = Scenario(shape, codes, rev=rev, token="file" if tok else None, total=SHARD.get("total", 1), reqs=reqs)
     first.start()
     w = first.w
+    w.silent_kill = True  # exit code -9: the job process is killed outright, no marker is written
     # first run: up to `cut` delivered events, then the scheduler dies
     limit = SHARD["cut"] if SHARD.get("cut") is not None else pick(cut, 8)
     k = 0
